@@ -30,6 +30,8 @@ def eager_import(backends=()):
     import pyrates.backend.base.base_funcs  # noqa
     import pyrates.frontend.fileio.yaml  # noqa
     import pyrates.frontend.dict  # noqa
+    import pyrates.frontend.file  # noqa  (otherwise imported lazily by the first YAML load: its module-level mapping
+    import pyrates.frontend.fileio.pickle  # noqa   would enter the C13 state hash only in workers that loaded YAML before)
     for b in backends:
         if b == 'torch':
             import torch  # noqa
